@@ -340,6 +340,9 @@ UPGRADER:
 				p.statusCode = 0
 				p.status = ""
 				p.nextState(stateStatusLF)
+			case '\n':
+				// a bare LF does not end the status line.
+				return ErrCRExpected
 			}
 		case stateStatusLF:
 			if c == '\n' {
@@ -530,6 +533,10 @@ UPGRADER:
 				start = i + 1
 				p.nextState(stateBodyChunkSizeLF)
 			default:
+				if c == '\n' {
+					// a bare LF does not end the chunk-size line.
+					return ErrCRExpected
+				}
 				if !isHex(c) && p.chunkSize < 0 {
 					chunkSize, err := parseAndValidateChunkSize(string(data[start:i]))
 					if err != nil {
@@ -597,6 +604,11 @@ UPGRADER:
 				continue
 			}
 
+			if c == '\n' {
+				// a bare LF is not part of the trailer section.
+				return ErrCRExpected
+			}
+
 			// all trailer header readed
 			if c == '\r' {
 				if len(p.trailer) > 0 {
@@ -662,6 +674,9 @@ UPGRADER:
 				p.headerKey = ""
 				p.headerValue = ""
 				p.nextState(stateBodyTrailerHeaderValueLF)
+			case '\n':
+				// a bare LF does not end the trailer line.
+				return ErrCRExpected
 			default:
 				// if !isToken(c) {
 				// 	return ErrInvalidCharInHeader
